@@ -46,15 +46,19 @@ func c27MustRejectFrame(kind uint8) func([]byte) string {
 	}
 }
 
-func c27Headers(kind uint8, result bool) [][]byte {
-	var hs [][]byte
+func c27Headers(kind uint8, result bool) (full, light [][]byte) {
 	for v := uint8(3); v <= 7; v++ {
-		hs = append(hs, []byte{v, kind})
+		hs := [][]byte{{v, kind}}
 		if result {
 			hs = append(hs, []byte{v, kind, 0}, []byte{v, kind, 1})
 		}
+		if v == codecVersion {
+			full = append(full, hs...)
+		} else {
+			light = append(light, hs...)
+		}
 	}
-	return hs
+	return full, light
 }
 
 type c27Named[T any] struct {
@@ -75,8 +79,8 @@ func c27Codec[T any](name string, kind uint8, result bool, enc func(T) ([]byte, 
 		},
 		MustReject:      c27MustRejectFrame(kind),
 		StrictStability: true,
-		Headers:         c27Headers(kind, result),
 	}
+	c.Headers, c.LightHeaders = c27Headers(kind, result)
 	for _, nv := range vals {
 		c.Values = append(c.Values, kit.Value{Label: nv.label, V: nv.v})
 	}
